@@ -404,3 +404,48 @@ def children_without_location_are_refused_not_laid_out_arbitrarily(k: int, bad: 
     except ValueError:
         raised = True
     assert raised
+
+
+# ---------------------------------------------------------------------------------------------- grids of the objects
+HexGrid = repo("armi.reactor.grids.hexagonal:HexGrid")
+
+
+def same_params(a, b):
+    """two (grid class name, GridParameters) entries are equal"""
+    return a == b
+
+
+@lemma(gen={"k": (1, 3), "gmask": (0, 7), "smask": (0, 7), "pa": (0.1, 30.0), "pb": (0.1, 30.0)}, stubs=STUBS)
+def grid_index_points_at_the_objects_own_grid_parameters(k: int, gmask: int, smask: int, pa: float, pb: float):
+    """a root with k = 1..3 children; child m has a real HexGrid (gmask bit m; pitch pa or pb by smask bit m, pa != pb
+    symbolic) or no grid; the root has a grid of pitch pa: gridIndex is None exactly for the objects without grid, and
+    for the others gridParams[gridIndex] is (class name, that grid's reduce()) - the constructor arguments from which
+    the grid is rebuilt on load; equal parameters are stored once, different ones get different indices"""
+    k = choose(k, 1, 3)
+    gmask = choose(gmask, 0, 2 ** k - 1)
+    smask = choose(smask, 0, 2 ** k - 1)
+    assume(pa > 0 and pb > 0 and pa != pb)
+    n = k + 1
+    par = [0] * n
+    sns, locs, temps = symbols(n, par, True, True)
+    nodes = mk_tree(n, par, [False] * n, sns, locs, temps)
+    has = [True] + [(gmask // (2 ** m)) % 2 == 1 for m in range(k)]
+    useb = [False] + [(smask // (2 ** m)) % 2 == 1 for m in range(k)]
+    for i in range(n):
+        if has[i]:
+            nodes[i].spatialGrid = HexGrid.fromPitch(pb if useb[i] else pa, numRings=1, armiObject=nodes[i])
+    lay = Layout((layout.DB_MAJOR, layout.DB_MINOR), comp=nodes[0])
+    assert len(lay.gridIndex) == n
+    for q in range(n):
+        if not has[q]:
+            assert lay.gridIndex[q] is None, "no grid: no index"
+        else:
+            gi = lay.gridIndex[q]
+            assert gi is not None and 0 <= gi and gi < len(lay.gridParams)
+            want = ("HexGrid", nodes[q].spatialGrid.reduce())
+            assert same_params(lay.gridParams[gi], want), "the index points at this object's own grid parameters"
+    for a in range(len(lay.gridParams)):
+        for b in range(a):
+            assert not same_params(lay.gridParams[a], lay.gridParams[b]), "equal parameters are stored once"
+    distinct = len(set(useb[i] for i in range(n) if has[i]))
+    assert len(lay.gridParams) == distinct, "as many stored grids as there are different parameter sets"
